@@ -670,17 +670,11 @@ class Share(object):
         if not isinstance(other, odict):
             raise ValueError('other must be an odict')
 
-        if other is self:
-            #raise ValueError('other cannot be the same odict')
-            pass #updating with self makes no changes
+        for key in other: #same field name rule as Data.__setattr__
+            if key not in self._data.__dict__ and not REO_IdentPub.fullmatch(key):
+                raise KeyError("%s invalid key '%s'" % (self.__class__.__name__, key))
 
-        dict.update(self, other)
-        keys = self._keys
-
-        for key in other:
-            if key in keys:
-                keys.remove(key)
-            keys.append(key)
+        self._data.__dict__.reorder(other) #the fields are in ._data.__dict__, self is not a dict
 
     def changeStore(self, store = None):  # store management
         """Replace .store """
